@@ -3,7 +3,7 @@ with scripted rail actions, a prompt-recording fake LLM and deterministic embedd
 
 A *case* (JSON):
   {"ver": "1.0"|"2.x", "dialog": bool, "exc": bool, "in": [rail ids in configured order], "out": [rail ids],
-   "carry": "messages"|"state", "gen": "std"|"pt"|"ptp"|"ptfn"|"single" (1.0 generation mode), "front": bool,
+   "carry": "messages"|"state"|"fresh" (messages, but no events cache: stateless deployment), "gen": "std"|"pt"|"ptp"|"ptfn"|"single" (1.0 generation mode), "front": bool,
    "turns": [{"user": str, "bot": str, "intent": "flow"|"free"|"act",
               "vin":  [[id, verdict]..], "vout": [[id, verdict]..], "act_fault": bool, "retr_fault": bool}]}
   verdict = "a" (accept) | "r" (reject) | ["w", text] (rewrite) | "f" (the rail's action raises)
@@ -453,7 +453,7 @@ async def _run(case):
         rails.events_history_cache.clear()
     obs = []
     messages = []
-    state = None if case.get("carry", "messages") == "messages" and case["ver"] == "1.0" else {}
+    state = None if case.get("carry", "messages") in ("messages", "fresh") and case["ver"] == "1.0" else {}
     gen = case.get("gen", "std") if case["ver"] == "1.0" else "std"
     _STATE["gen"] = gen
     front = []
@@ -470,14 +470,24 @@ async def _run(case):
                     res = await rails.generate_async(prompt=t["user"])
                     rep = _canon_reply(res)
                 elif case["ver"] == "1.0" and state is None:
-                    res = await rails.generate_async(messages=front + messages + [{"role": "user", "content": t["user"]}])
+                    if case.get("carry") == "fresh":
+                        # a stateless deployment (new worker / restarted server): no cached events, the history is
+                        # rebuilt from the plain messages on every request
+                        rails.events_history_cache.clear()
+                    # the usual client: append the user message to its own list and pass that list (the passthrough
+                    # branch overwrites the last entry in place with the rewritten text - the client's copy follows)
+                    messages.append({"role": "user", "content": t["user"]})
+                    try:
+                        res = await rails.generate_async(messages=front + messages)
+                    except BaseException:
+                        messages.pop()
+                        raise
                     rep = _canon_reply(res)
                     if gen in PT_MODES and rep["role"] == "exception":
                         # passthrough chat mode: the request IS the prompt, an {"role": "exception"} entry cannot be sent to
                         # the LLM ("Unknown message type") - the client discards the failed exchange
-                        pass
+                        messages.pop()
                     else:
-                        messages.append({"role": "user", "content": t["user"]})
                         # the client keeps whatever `generate` returned in its history (as tests/utils.py::TestChat
                         # does), also a {"role": "exception"} reply: the events-history cache is keyed by it
                         messages.append(dict(res) if isinstance(res, dict) else {"role": "assistant", "content": rep["content"]})
